@@ -26,7 +26,7 @@ Definition req_effect (mods : list name) (o : op) (m : name) (c : conn) : option
         end
       else None
   | OIdent c' | ODisconnect c' => if Nat.eqb c' c && mem_name m mods then Some None else None
-  | OEmit _ _ => None
+  | OEmit _ _ _ => None
   end.
 
 (* the choice in force after a history, given newest first: the latest operation that decides, decides *)
@@ -37,13 +37,10 @@ Fixpoint spec_choice (mods : list name) (newest_first : list op) (m : name) (c :
   end.
 
 (* the messages connection c must get for a record (m, lv) when its choice is ch *)
-Definition expected (ch : option Z) (m : name) (lv : Z) (c : conn) : list delivery :=
-  match level_name lv with
+Definition expected (ch : option Z) (m : name) (lv : Z) (pyname : name) (c : conn) : list delivery :=
+  match ch with
+  | Some x => if Z.leb x lv then [(c, m, record_name lv pyname)] else []
   | None => []
-  | Some nm => match ch with
-               | Some x => if Z.leb x lv then [(c, m, nm)] else []
-               | None => []
-               end
   end.
 
 Definition deliv_to (c : conn) (ds : list delivery) : list delivery :=
@@ -60,7 +57,7 @@ Fixpoint trace_from (mods : list name) (t : table) (ops : list op) : list delive
 Definition by_conn (c : conn) (o : op) : bool :=
   match o with
   | OLogging c' _ _ | OIdent c' | ODisconnect c' => Nat.eqb c' c
-  | OEmit _ _ => false
+  | OEmit _ _ _ => false
   end.
 Definition is_logging_by (c : conn) (o : op) : bool :=
   match o with OLogging c' _ _ => Nat.eqb c' c | _ => false end.
@@ -257,7 +254,7 @@ Lemma step_chosen mods t o :
   forall m c, chosen (fst (step mods t o)) m c =
               match req_effect mods o m c with Some x => x | None => chosen t m c end.
 Proof.
-  destruct o as [c spec d|m0 lv|c|c]; simpl.
+  destruct o as [c spec d|m0 lv py|c|c]; simpl.
   - (* logging request *)
     unfold handle_logging, targets.
     destruct (check_level d) as [lv|e] eqn:CL.
@@ -327,63 +324,54 @@ Proof.
 Qed.
 
 (* ------------------------------------------------------------------ handle *)
-Lemma handle_loop_unnamed m lv l : level_name lv = None -> fst (handle_loop m lv l) = [].
+Lemma handle_loop_exact m nm lv c l :
+  NoDup (map fst l) ->
+  deliv_to c (handle_loop m nm lv l) =
+  match conn_get c l with Some x => if Z.leb x lv then [(c, m, nm)] else [] | None => [] end.
 Proof.
-  intros H. induction l as [|[c x] r]; simpl; auto.
-  destruct (Z.leb x lv); auto. rewrite H. auto.
-Qed.
-
-Lemma handle_loop_exact m lv c l :
-  NoDup (map fst l) -> deliv_to c (fst (handle_loop m lv l)) = expected (conn_get c l) m lv c.
-Proof.
-  unfold expected. destruct (level_name lv) as [nm|] eqn:LN.
-  2:{ intros _. rewrite handle_loop_unnamed; auto. }
   induction l as [|[c' x] r]; simpl; intros ND; auto.
   inversion ND; subst.
   destruct (Nat.eqb c c') eqn:E.
   - apply Nat.eqb_eq in E; subst c'.
-    assert (deliv_to c (fst (handle_loop m lv r)) = []) as Z0.
+    assert (deliv_to c (handle_loop m nm lv r) = []) as Z0.
     { rewrite IHr by auto. rewrite conn_get_notin by auto. reflexivity. }
     destruct (Z.leb x lv).
-    + rewrite LN. destruct (handle_loop m lv r) as [out e]. simpl in *.
-      rewrite Nat.eqb_refl. rewrite Z0. reflexivity.
+    + simpl. rewrite Nat.eqb_refl. rewrite Z0. reflexivity.
     + apply Z0.
   - destruct (Z.leb x lv).
-    + rewrite LN. destruct (handle_loop m lv r) as [out e] eqn:HL. simpl in *.
-      rewrite Nat.eqb_sym, E. apply IHr; auto.
+    + simpl. rewrite Nat.eqb_sym, E. apply IHr; auto.
     + apply IHr; auto.
 Qed.
 
-Lemma handle_exact t m lv c :
-  wf t -> deliv_to c (fst (handle t m lv)) = expected (chosen t m c) m lv c.
+Lemma handle_exact t m lv py c :
+  wf t -> deliv_to c (handle t m lv py) = expected (chosen t m c) m lv py c.
 Proof.
-  intros W. unfold handle, chosen, subs_of. destruct (get_mod m t) as [l|] eqn:G.
+  intros W. unfold handle, chosen, subs_of, expected. destruct (get_mod m t) as [l|] eqn:G.
   - apply handle_loop_exact. eapply W; eauto.
-  - simpl. unfold expected. destruct (level_name lv); auto.
+  - reflexivity.
 Qed.
 
-(* full-strength routing statement, including what happens for level numbers without a name *)
-Lemma routing_exact mods ops m lv c :
-  deliv_to c (fst (handle (run mods ops) m lv)) = expected (spec_choice mods (rev ops) m c) m lv c.
+(* full-strength routing statement *)
+Lemma routing_exact mods ops m lv py c :
+  deliv_to c (handle (run mods ops) m lv py) = expected (spec_choice mods (rev ops) m c) m lv py c.
 Proof. rewrite handle_exact by apply run_wf. rewrite run_refines_spec. reflexivity. Qed.
 
 Lemma in_deliv_to c d ds : In d (deliv_to c ds) <-> In d ds /\ fst (fst d) = c.
 Proof. unfold deliv_to. rewrite filter_In. rewrite Nat.eqb_eq. tauto. Qed.
 
-(* the property as an "exactly when": for a level number with a name *)
-Lemma routing_iff mods ops m lv c nm :
-  level_name lv = Some nm ->
-  (In (c, m, nm) (fst (handle (run mods ops) m lv)) <->
-   exists x, spec_choice mods (rev ops) m c = Some x /\ (x <= lv)%Z).
+(* the property as an "exactly when", for every level number *)
+Lemma routing_iff mods ops m lv py c :
+  In (c, m, record_name lv py) (handle (run mods ops) m lv py) <->
+  exists x, spec_choice mods (rev ops) m c = Some x /\ (x <= lv)%Z.
 Proof.
-  intros LN. pose proof (routing_exact mods ops m lv c) as R. unfold expected in R. rewrite LN in R.
+  pose proof (routing_exact mods ops m lv py c) as R. unfold expected in R.
   split.
-  - intros I. assert (In (c, m, nm) (deliv_to c (fst (handle (run mods ops) m lv)))) as I2.
+  - intros I. assert (In (c, m, record_name lv py) (deliv_to c (handle (run mods ops) m lv py))) as I2.
     { apply in_deliv_to. split; auto. }
     rewrite R in I2. destruct (spec_choice mods (rev ops) m c) as [x|]; [|destruct I2].
     destruct (Z.leb x lv) eqn:L; [|destruct I2]. exists x. split; auto. apply Z.leb_le; auto.
   - intros (x & S & L). rewrite S in R. apply Z.leb_le in L. rewrite L in R.
-    assert (In (c, m, nm) (deliv_to c (fst (handle (run mods ops) m lv)))) as I2.
+    assert (In (c, m, record_name lv py) (deliv_to c (handle (run mods ops) m lv py))) as I2.
     { rewrite R. left; auto. }
     apply in_deliv_to in I2. tauto.
 Qed.
@@ -402,20 +390,20 @@ Proof.
   - unfold silences in S. rewrite S. auto.
   - assert (is_logging_by c o' = false) as N1 by (apply NL; auto).
     assert (spec_choice mods (r ++ o :: older) m c = None) as IH by (apply IHr; auto).
-    destruct o' as [c' spec d|m0 lv|c'|c']; simpl in *; auto.
+    destruct o' as [c' spec d|m0 lv py|c'|c']; simpl in *; auto.
     + rewrite N1. auto.
     + destruct (Nat.eqb c' c && mem_name m mods); auto.
     + destruct (Nat.eqb c' c && mem_name m mods); auto.
 Qed.
 
-Lemma stop_exact mods ops1 o ops2 m c lv :
+Lemma stop_exact mods ops1 o ops2 m c lv py :
   silences mods o m c ->
   (forall o', In o' ops2 -> is_logging_by c o' = false) ->
-  deliv_to c (fst (handle (run mods (ops1 ++ o :: ops2)) m lv)) = [].
+  deliv_to c (handle (run mods (ops1 ++ o :: ops2)) m lv py) = [].
 Proof.
   intros S NL. rewrite routing_exact. rewrite rev_app_distr. simpl. rewrite <- app_assoc. simpl.
   rewrite spec_choice_silent; auto.
-  - unfold expected. destruct (level_name lv); auto.
+  - reflexivity.
   - intros o' I. apply NL. apply in_rev; auto.
 Qed.
 
@@ -435,7 +423,7 @@ Qed.
 Lemma spec_choice_unknown_module mods m c : forall l, mem_name m mods = false -> spec_choice mods l m c = None.
 Proof.
   intros l M. induction l as [|o r]; simpl; auto.
-  destruct o as [c' spec d|m0 lv|c'|c']; simpl; auto.
+  destruct o as [c' spec d|m0 lv py|c'|c']; simpl; auto.
   - destruct (Nat.eqb c' c); auto. destruct (check_level d); auto.
     unfold targets. rewrite M. destruct (is_all spec); auto. destruct spec; auto. rewrite andb_false_r. auto.
   - rewrite M, andb_false_r. auto.
@@ -448,17 +436,17 @@ Proof. apply filter_app. Qed.
 
 Lemma req_effect_other mods o m c c' : by_conn c o = true -> c <> c' -> req_effect mods o m c' = None.
 Proof.
-  intros B N. destruct o as [c0 spec d|m0 lv|c0|c0]; simpl in *; try discriminate.
+  intros B N. destruct o as [c0 spec d|m0 lv py|c0|c0]; simpl in *; try discriminate.
   - apply Nat.eqb_eq in B; subst. destruct (Nat.eqb c c') eqn:E; auto. apply Nat.eqb_eq in E; contradiction.
   - apply Nat.eqb_eq in B; subst. destruct (Nat.eqb c c') eqn:E; auto. apply Nat.eqb_eq in E; contradiction.
   - apply Nat.eqb_eq in B; subst. destruct (Nat.eqb c c') eqn:E; auto. apply Nat.eqb_eq in E; contradiction.
 Qed.
 
-Definition is_emit (o : op) : bool := match o with OEmit _ _ => true | _ => false end.
+Definition is_emit (o : op) : bool := match o with OEmit _ _ _ => true | _ => false end.
 
 Lemma step_request_silent mods t o : is_emit o = false -> fst (snd (step mods t o)) = [].
 Proof.
-  destruct o as [c spec d|m0 lv|c|c]; simpl; intros H; try discriminate.
+  destruct o as [c spec d|m0 lv py|c|c]; simpl; intros H; try discriminate.
   - destruct (handle_logging mods t c spec d); auto.
   - destruct (reset_connection mods t c); auto.
   - destruct (reset_connection mods t c); auto.
@@ -481,7 +469,7 @@ Proof.
   - destruct (step_chosen mods t2 o) as [SW2 SC2].
     rewrite deliv_to_app. f_equal.
     + destruct (is_emit o) eqn:E.
-      * destruct o as [c0 spec d|m0 lv|c0|c0]; try discriminate. simpl.
+      * destruct o as [c0 spec d|m0 lv py|c0|c0]; try discriminate. simpl.
         rewrite !handle_exact by auto. rewrite A. auto.
       * rewrite !step_request_silent by auto. auto.
     + apply IHr; auto. intros m. rewrite SC1, SC2. rewrite A. auto.
